@@ -2,6 +2,7 @@ package props
 
 import (
 	"fmt"
+	"strings"
 
 	"verif/internal/core"
 	"verif/internal/envx"
@@ -74,6 +75,34 @@ func c03Gen(c *core.Ctx) func(yield func(c03Case) bool) {
 		if !ok {
 			return
 		}
+		// programmatic lookups during initialisation: node i looks a lazy node j up inside its Init
+		// (j is created on demand while i is still in creation), one substituted node
+		allGraphs(3, []int{scen.ENone, scen.EName}, false, func(e [][]int) bool {
+			for _, lz := range []int{4, 6, 2} {
+				lazy := []bool{false, lz&2 == 2, lz&4 == 4}
+				for i := 0; i < 3; i++ {
+					for j := 1; j < 3; j++ {
+						if i == j || !lazy[j] {
+							continue
+						}
+						for node := 0; node < 3; node++ {
+							for plan := 1; plan < scen.NumWrapPlans; plan++ {
+								w := []int{0, 0, 0}
+								w[node] = plan
+								p := scen.GraphProg{N: 3, Edges: e, Lazy: lazy, Wrap: w, InitLookup: [][]int{{i, j}}, Family: "n3-initlookup"}
+								if ok = yield(c03Case{p, 0}); !ok {
+									return false
+								}
+							}
+						}
+					}
+				}
+			}
+			return true
+		})
+		if !ok {
+			return
+		}
 		// 2-node graphs with self-made deviations on iteration order
 		allGraphs(2, three, false, func(e [][]int) bool { return emit(2, e, 2, [][]int{{0, 1}}, "n2-dev", 1) })
 		if !ok || !c.Thorough() {
@@ -102,15 +131,23 @@ func c03Run(c *core.Ctx) {
 			cc := cs
 			cc.Choices = ch.Choices()
 			key := func(kind string) string {
-				return "C03/" + kind + "/" + core.Hash(p.N, p.Edges, p.Base, p.Wrap, cc.Choices)
+				return "C03/" + kind + "/" + core.Hash(p.N, p.Edges, p.Base, p.Wrap, p.Lazy, p.InitLookup, cc.Choices)
 			}
 			if !o.OK() {
 				return // failing is always allowed by C03 (panics / hangs are C09 / C02 matters)
 			}
 			// every holder's value for t and the by-name lookup of t are one object
 			for t := 0; t < p.N; t++ {
+				if len(p.Lazy) > t && p.Lazy[t] {
+					scen.Guard(func() { o.Fin[t], o.FinErr[t] = o.App.GetComponentByName(scen.Name(t, p.N)) })
+					if o.FinErr[t] != nil || o.Fin[t] == nil {
+						// an on-demand creation may fail (the container is allowed to be conservative)
+						o.Fin[t] = nil
+						continue
+					}
+				}
 				if o.FinErr[t] != nil || o.Fin[t] == nil {
-					c.Report(key("lookup"), "lookup-failed", fmt.Sprintf("by-name lookup of %s failed after a successful start", scen.Name(t, p.N)), cc)
+					c.Report(key("lookup"), "lookup-failed", fmt.Sprintf("by-name lookup of %s failed after a successful start: %v (events: %s)", scen.Name(t, p.N), scen.FirstLine(o.FinErr[t]), strings.Join(o.RT.Log, " ")), cc)
 					return
 				}
 				if b := scen.NodeOf(o.Fin[t]); b == nil || b.Idx != t {
@@ -129,6 +166,9 @@ func c03Run(c *core.Ctx) {
 					b := scen.NodeOf(v)
 					if b == nil {
 						continue
+					}
+					if o.Fin[b.Idx] == nil {
+						continue // lazy component whose on-demand creation failed: nothing published
 					}
 					if !sameObject(v, o.Fin[b.Idx]) {
 						c.Report(key("stale"), "stale-version",
